@@ -23,3 +23,13 @@ func warmHTTP() {
 	}
 	hx.Rec.Reset()
 }
+
+var warmed bool
+
+// DefaultWarm runs the HTTP warm-up once per process.
+func DefaultWarm() {
+	if !warmed {
+		warmed = true
+		warmHTTP()
+	}
+}
